@@ -31,6 +31,7 @@ func indexCallSites(p *an.Prog) {
 		return
 	}
 	callSitesProg = p
+	an.RegisterCallers(p.Funcs)
 	callSitesOf = map[*ssa.Function][]*ssa.CallCommon{}
 	callSitesByCaller = map[*ssa.Function][]*ssa.CallCommon{}
 	for _, f := range p.Funcs {
